@@ -500,6 +500,7 @@ class IndexArchive(Contract):
 
 
 class CollectMembers(Contract):
+    locals_order = ['self', 'fp', 'newmember']
     target = MOD + ":ArFile.__collect_members"
     modular = False
     ghosts = ("n",)
